@@ -42,6 +42,7 @@ Definition tables_wf : bool :=
   forallb (fun s => match row_of s with
                     | Some r => len_is 4 (r_calc_key_prf r) && len_is 5 (r_ffv r)
                                 && len_is 4 (r_labels r) && forallb (len_is 5) (r_labels r) && len_is 4 (r_exporter r)
+                                && len_is 3 (r_filter_prfs r)
                     | None => false end) all_suites
   && Nat.eqb (List.length rows) (List.length all_suites)
   && forallb (fun c => match sassoc c srv_candidates with Some t => len_is 5 t | None => false end) creds
@@ -122,10 +123,29 @@ Definition keyupdate_ok (m : meaning) (r : suite_row) (v : Z) : bool :=
     end
   else true.
 
+(* TLS 1.3 PSKs (RFC 8446 4.2.11: the selected PSK's hash must be the suite's hash):
+   filter_for_prfs keeps the suite exactly for its own hash (None counts as sha256), and the server's
+   selection loop (psk_skipped, from the ast; prf_name = _getPRFParams of the suite) skips an offered
+   identity -- external PSK or ticket -- exactly when its hash is not the suite's *)
+Definition psk_ok (m : meaning) (r : suite_row) (v : Z) : bool :=
+  if v =? 4 then
+    let h := prf_at m 4 in
+    match r_filter_prfs r with
+    | [b256; b384; bnone] =>
+        Bool.eqb b256 (String.eqb h "sha256") && Bool.eqb b384 (String.eqb h "sha384")
+        && Bool.eqb bnone (String.eqb h "sha256")
+    | _ => false
+    end
+    && forallb (fun t => forallb (fun ph =>
+                  Bool.eqb (psk_skipped t ph (fst (r_prf_params r))) (negb (String.eqb ph h)))
+                ["sha256"; "sha384"]) [true; false]
+  else true.
+
 Definition chk_classification (s v : Z) : bool :=
   match meaning_of s, row_of s with
   | Some m, Some r => cipher_settings_ok m r && mac_settings_ok m r && prf_ok m r v
                       && labels_ok m r v && exporter_ok m r v && deprecated_ok m r v && keyupdate_ok m r v
+                      && psk_ok m r v
   | _, _ => false
   end.
 
@@ -306,3 +326,26 @@ Definition chk_static (s : Z) : bool :=
 
 (* known ids whose static classification deviates from their name *)
 Definition static_defects : list Z := filter (fun s => negb (chk_static s)) all_suites.
+
+(* ---- which suite feeds key derivation (structure read from the ast of tlsconnection.py) ---------
+   A resumed connection (TLS <= 1.2) derives its keys and Finished values from the suite of the SESSION
+   being resumed, on both sides, and the client aborts when the ServerHello names another suite; a full
+   handshake uses the negotiated suite.  Unknown functions or expressions fail the check (fail closed). *)
+Definition allowed_suite_sources : list (string * list string) := [
+  ("_clientResume", ["session.cipherSuite"]);
+  ("_serverGetClientHello", ["session.cipherSuite"]);
+  ("_clientFinished", ["cipherSuite"]);
+  ("_serverFinished", ["cipherSuite"]);
+  ("_clientTLS13Handshake", ["serverHello.cipher_suite"]);
+  ("_serverTLS13Handshake", ["cipherSuite"; "serverHello.cipher_suite"])].
+
+Definition chk_suite_sources : bool :=
+  forallb (fun e => let '(fn, _, src) := e in
+             match sassoc fn allowed_suite_sources with
+             | Some ok => existsb (String.eqb src) ok
+             | None => false
+             end) suite_arg_sources
+  && forallb (fun p => existsb (fun e => let '(fn, _, _) := e in String.eqb fn (fst p)) suite_arg_sources)
+             allowed_suite_sources
+  && existsb (fun g => String.eqb (fst g) "serverHello.cipher_suite != session.cipherSuite" && snd g) resume_suite_guards
+  && forallb (fun g => snd g) resume_suite_guards.
